@@ -338,12 +338,14 @@ func runC14(w *core.World, r *core.Report) {
 				if !isBo {
 					continue
 				}
-				c, isC := core.ConstInt(bo.Y)
+				_, op, c, isC := core.CmpConst(bo)
 				if !isC {
 					continue
 				}
-				if (bo.Op == token.GTR && c == limit) || (bo.Op == token.GEQ && c == limit+1) {
-					for _, e := range core.EdgesWhere(bo, true) {
+				exceedTrue := (op == token.GTR && c == limit) || (op == token.GEQ && c == limit+1)
+				exceedFalse := (op == token.LEQ && c == limit) || (op == token.LSS && c == limit+1)
+				if exceedTrue || exceedFalse {
+					for _, e := range core.EdgesWhere(bo, exceedTrue) {
 						if in2, _ := core.Reach(core.Point{B: e.To(), I: 0}, func(x ssa.Instruction) bool {
 							ret, isRet := x.(*ssa.Return)
 							return isRet && !isErrorReturn(ret)
